@@ -22,7 +22,7 @@
    Extra non-interpolated dimensions are reduced to independent lanes by the
    harness (each lane is one case of this model). *)
 From CfdmV Require Import Common.Base.
-From Coq Require Import QArith.
+From Coq Require Import QArith Qabs.
 Open Scope nat_scope.
 
 (* ------------------------------------------------------------------ *)
@@ -72,10 +72,12 @@ Definition linspace (size : nat) : list Q :=
   map (fun j => (qn j / qn (size - 1))%Q) (seq 0 size).
 
 (* LinearInterpolation._linear_interpolation:  u = ua + s * (ub - ua) *)
-Definition fl (ua ub s : Q) : Q := (ua + s * (ub - ua))%Q.
+(* (Qred only normalises the fraction - same rational number - so that numerators
+   and denominators stay small when the formulas are nested) *)
+Definition fl (ua ub s : Q) : Q := Qred (ua + s * (ub - ua))%Q.
 (* QuadraticInterpolation._quadratic_interpolation:
    u = ua + s * (ub - ua + 4 * w * (1 - s)), or the linear formula if w is None *)
-Definition fq (ua ub w s : Q) : Q := (ua + s * (ub - ua + 4 * w * (1 - s)))%Q.
+Definition fq (ua ub w s : Q) : Q := Qred (ua + s * (ub - ua + 4 * w * (1 - s)))%Q.
 
 Inductive meth := Linear | Quadratic (w : option (list Q)).
 
@@ -109,7 +111,9 @@ Definition block1 (bounds : bool) (m : meth) (tp : list Q) (A : area) : list cel
    for each subarea:  u[u_indices] = subarray[...]   (in order, later wins) *)
 Definition store1 := nat -> option cell.
 Definition step1 (bounds : bool) (m : meth) (tp : list Q) (u : store1) (A : area) : store1 :=
-  fun i => if cov A i then Some (nth (i - a_lo A) (block1 bounds m tp A) []) else u i.
+  (* subarray[...] is computed once, then assigned *)
+  let blk := block1 bounds m tp A in
+  fun i => if cov A i then Some (nth (i - a_lo A) blk []) else u i.
 Definition dec1 (bounds : bool) (m : meth) (tpi : list nat) (tp : list Q) : store1 :=
   fold_left (step1 bounds m tp) (subareas tpi) (fun _ => None).
 
@@ -148,9 +152,10 @@ Definition block2 (bounds : bool) (T : list (list Q)) (A2 A1 : area) : list (lis
 
 Definition store2 := nat -> nat -> option cell.
 Definition step2 (bounds : bool) (T : list (list Q)) (u : store2) (AA : area * area) : store2 :=
+  let blk := block2 bounds T (fst AA) (snd AA) in
   fun i2 i1 =>
     if cov (fst AA) i2 && cov (snd AA) i1
-    then Some (nth (i1 - a_lo (snd AA)) (nth (i2 - a_lo (fst AA)) (block2 bounds T (fst AA) (snd AA)) []) [])
+    then Some (nth (i1 - a_lo (snd AA)) (nth (i2 - a_lo (fst AA)) blk []) [])
     else u i2 i1.
 (* itertools.product: the last dimension varies fastest = list_prod *)
 Definition dec2 (bounds : bool) (tpi2 tpi1 : list nat) (T : list (list Q)) : store2 :=
@@ -213,8 +218,15 @@ Definition getitem1_gen (shortcut_bounds : bool) (bounds : bool) (m : meth) (n :
 Definition getitem1 := getitem1_gen false.
 Definition getitem1_old := getitem1_gen true.
 
-(* two subsampled dimensions (bi_linear); bounds have 4 vertices *)
-Definition getitem2_gen (shortcut_bounds : bool) (bounds : bool) (n2 n1 : nat)
+(* two subsampled dimensions (bi_linear); bounds have 4 vertices.
+   [swap]: _broadcast_bounds took the two subsampled dimensions in descending
+   order, (d1, d2) = (1, 0): bounds[..., 1] is then u[i2+1, i1] and
+   bounds[..., 3] is u[i2, i1+1], i.e. vertices 1 and 3 of every cell change
+   places (see bb_swapped below; never the case for the current code). *)
+Definition vswap (swap : bool) (c : cell) : cell :=
+  if swap then match c with [a; b; c'; d] => [a; d; c'; b] | _ => c end else c.
+
+Definition getitem2_gen (shortcut_bounds swap : bool) (bounds : bool) (n2 n1 : nat)
            (tpi2 tpi1 : list nat) (T : list (list Q)) (ix : list idx) : obs :=
   if (negb bounds || shortcut_bounds) && all_first ix then
     ObsArr [1; 1] [Some (tpv2 T 0 0)]
@@ -229,13 +241,155 @@ Definition getitem2_gen (shortcut_bounds : bool) (bounds : bool) (n2 n1 : nat)
                               (take2 u (positions n2 i2) (positions n1 i1) [0])
     | [i2; i1; v] => if bounds
                      then ObsArr [length (positions n2 i2); length (positions n1 i1); length (positions 4 v)]
-                                 (take2 u (positions n2 i2) (positions n1 i1) (positions 4 v))
+                                 (take2 (fun a b => option_map (vswap swap) (u a b))
+                                        (positions n2 i2) (positions n1 i1) (positions 4 v))
                      else ObsErr
     | _ => ObsErr
     end.
 
-Definition getitem2 := getitem2_gen false.
-Definition getitem2_old := getitem2_gen true.
+Definition getitem2 := getitem2_gen false false.
+Definition getitem2_old := getitem2_gen true false.
 
 (* the whole array *)
 Definition full_ix (n : nat) : idx := IPos (seq 0 n).
+
+(* ------------------------------------------------------------------ *)
+(* The constructor arguments of SubsampledArray.
+
+   Stored tie points.  The tie point array is stored in some netCDF type; a
+   stored number is an integer or m * 2^e.  SubsampledSubarray._select_data
+   converts the selected tie points to the type of the uncompressed data
+   (float64) before any arithmetic; that conversion is exact for 16/32-bit
+   integers, 32/64-bit floats and 64-bit integers below 2^53, so the values
+   that enter the interpolation are the injections of the stored numbers. *)
+Inductive sty := SI16 | SI32 | SI64 | SF32 | SF64.
+Inductive snum := NInt (z : Z) | NFlt (m e : Z).
+
+Definition inj_raw (x : snum) : Q :=
+  match x with
+  | NInt z => inject_Z z
+  | NFlt m e => (inject_Z m * Qpower 2 e)%Q
+  end.
+(* the value of a stored number, as a fraction in lowest terms *)
+Definition inj (x : snum) : Q := Qred (inj_raw x).
+
+Inductive tparr := TP1 (tp : list snum) | TP2 (T : list (list snum)).
+Inductive tparrQ := TQ1 (tp : list Q) | TQ2 (T : list (list Q)).
+Definition tp_inj (t : tparr) : tparrQ :=
+  match t with
+  | TP1 tp => TQ1 (map inj tp)
+  | TP2 T => TQ2 (map (map inj) T)
+  end.
+
+(* Dictionaries (tie_point_indices, parameters, parameter_dimensions) are
+   association lists in insertion order, keys distinct. *)
+Fixpoint glook {K V} (eqb : K -> K -> bool) (k : K) (l : list (K * V)) : option V :=
+  match l with
+  | [] => None
+  | (k', v) :: r => if eqb k k' then Some v else glook eqb k r
+  end.
+
+(* sorted(...) *)
+Fixpoint insert (x : nat) (l : list nat) : list nat :=
+  match l with
+  | [] => [x]
+  | y :: r => if x <=? y then x :: l else y :: insert x r
+  end.
+Fixpoint isort (l : list nat) : list nat :=
+  match l with [] => [] | x :: r => insert x (isort r) end.
+
+(* SubsampledArray.__init__:  compressed_dimensions = {d: (d,) for d in sorted(tie_point_indices)}
+   SubsampledSubarray._broadcast_bounds:  subsampled_dimensions = sorted(self.compressed_dimensions())
+   [srt_init] / [srt_bb] = false model a variant without the respective sorted(). *)
+Definition cdims (srt_init : bool) (tpis : list (nat * list nat)) : list nat :=
+  if srt_init then isort (map fst tpis) else map fst tpis.
+Definition bb_swapped (srt_init srt_bb : bool) (tpis : list (nat * list nat)) : bool :=
+  let cd := cdims srt_init tpis in
+  match (if srt_bb then isort cd else cd) with
+  | [d1; d2] => d2 <? d1
+  | _ => false
+  end.
+
+Inductive iname := ILinear | IQuadratic | IBilinear.
+
+Definition meth_of (name : iname) (params : list (string * list Q)) : meth :=
+  match name with
+  | IQuadratic => Quadratic (glook String.eqb "w"%string params)
+  | _ => Linear
+  end.
+
+(* canonical layouts: the subsampled dimensions are 0 (TP1) or 0 and 1 (TP2);
+   LinearSubarray: (d1,) = tuple(compressed_dimensions());
+   BiLinearSubarray: (d2, d1) = sorted(compressed_dimensions()).
+   parameter_dimensions and computational_precision are stored but do not
+   enter the computation of the modelled methods (float64 throughout). *)
+Definition getitem_sa_gen (srt_init srt_bb : bool) (name : iname) (bounds : bool) (shape : list nat)
+           (ty : sty) (tp : tparr) (tpis : list (nat * list nat))
+           (params : list (string * list Q)) (pdims : list (string * list nat))
+           (prec : option string) (ix : list idx) : obs :=
+  match name, isort (map fst tpis), tp_inj tp with
+  | IBilinear, [0; 1], TQ2 T =>
+      match glook Nat.eqb 0 tpis, glook Nat.eqb 1 tpis with
+      | Some t2, Some t1 =>
+          getitem2_gen false (bb_swapped srt_init srt_bb tpis) bounds (nth 0 shape 0) (nth 1 shape 0) t2 t1 T ix
+      | _, _ => ObsErr
+      end
+  | IBilinear, _, _ => ObsErr
+  | _, [0], TQ1 vals =>
+      match glook Nat.eqb 0 tpis with
+      | Some t => getitem1 bounds (meth_of name params) (nth 0 shape 0) t vals ix
+      | None => ObsErr
+      end
+  | _, _, _ => ObsErr
+  end.
+
+Definition getitem_sa := getitem_sa_gen true true.
+
+(* ------------------------------------------------------------------ *)
+(* Superseded / seeded variants of the arithmetic (one subsampled dimension,
+   linear, coordinates), for Refuted.v.
+   [sub]: how ub - ua is formed; [srnd]: rounding applied to the coefficient s. *)
+Definition raw1_g (sub : Q -> Q -> Q) (srnd : Q -> Q) (tp : list Q) (A : area) : list Q :=
+  map (fun s => (tpv tp (a_k A) + srnd s * sub (tpv tp (S (a_k A))) (tpv tp (a_k A)))%Q)
+      (linspace (s_size false A)).
+Definition dec1_g (sub : Q -> Q -> Q) (srnd : Q -> Q) (tpi : list nat) (tp : list Q) : store1 :=
+  fold_left (fun u A i => if cov A i
+                          then Some (nth (i - a_lo A) (map (fun x => [x]) (trim (a_first A) (raw1_g sub srnd tp A))) [])
+                          else u i)
+            (subareas tpi) (fun _ => None).
+
+(* two's complement wrap-around of an n-bit integer *)
+Definition wrap (n : Z) (z : Z) : Z := ((z + 2 ^ (n - 1)) mod 2 ^ n - 2 ^ (n - 1))%Z.
+
+(* round to nearest, ties to even *)
+Definition round_half_even (q : Q) : Z :=
+  let n := Qnum q in let d := Zpos (Qden q) in
+  let f := (n / d)%Z in
+  let r2 := (2 * (n - f * d))%Z in
+  if (r2 <? d)%Z then f else if (d <? r2)%Z then (f + 1)%Z else if Z.even f then f else (f + 1)%Z.
+
+(* rounding of a rational to IEEE binary32 (normal range only) *)
+Definition round_f32 (q : Q) : Q :=
+  if Qeq_bool q 0 then 0%Q else
+  let a := Qabs q in
+  let e0 := (Z.log2 (Qnum a) - Z.log2 (Zpos (Qden a)))%Z in
+  let e := if Qle_bool (Qpower 2 e0) a then e0 else (e0 - 1)%Z in
+  let sh := (e - 23)%Z in
+  let r := (inject_Z (round_half_even (a / Qpower 2 sh)) * Qpower 2 sh)%Q in
+  if Qle_bool 0 q then r else (- r)%Q.
+
+(* the code before handoff/C16-fix3-1: ub - ua was formed in the stored type *)
+Definition sub_stored (ty : sty) (ub ua : Q) : Q :=
+  let zi (n : Z) := inject_Z (wrap n (Qnum (Qred (ub - ua)))) in
+  match ty with
+  | SI16 => zi 16%Z | SI32 => zi 32%Z | SI64 => zi 64%Z
+  | SF32 => round_f32 (ub - ua)
+  | SF64 => (ub - ua)%Q
+  end.
+Definition dec1_stored_arith (ty : sty) := dec1_g (sub_stored ty) (fun s => s).
+
+(* a variant in which the coefficient s is computed in
+   numpy.result_type(stored type, float32) *)
+Definition s_in_result_type (ty : sty) (s : Q) : Q :=
+  match ty with SF32 | SI16 => round_f32 s | _ => s end.
+Definition dec1_s32 (ty : sty) := dec1_g Qminus (s_in_result_type ty).
